@@ -1411,3 +1411,14 @@ MUTANTS += [
  dict(id='F73-select-without-done', props=['C02'], expect='R-HEADER-READ-CANCELLABLE/header-read/',
       edits=[(MS, '\tselect {\n\tcase res := <-resCh:\n\t\treturn res.m, res.err\n\tcase <-ctx.Done():\n\t\treturn manifest.Manifest{}, ctx.Err()\n\t}\n', '\tres := <-resCh\n\treturn res.m, res.err\n')]),
 ]
+MUTANTS += [
+ dict(id='R9-benign-peer-id-validator-helper', props=['C10'], expect='SILENT',
+      edits=[(SRV, '\tif !utf8.ValidString(peerID) {\n\t\tsendError(w, http.StatusBadRequest, "peer_id is not valid UTF-8")\n\t\treturn\n\t}\n\t// The server signs its own notices with this id; the clients act on peer_left,\n\t// peer_joined, turn_credentials only when they carry it.\n\tif peerID == protocol.ServerPeerID {\n\t\tsendError(w, http.StatusBadRequest, "peer_id is reserved")\n\t\treturn\n\t}\n',
+                   '\tif err := checkPeerID(peerID); err != nil {\n\t\tsendError(w, http.StatusBadRequest, err.Error())\n\t\treturn\n\t}\n'),
+             (SRV, '\nfunc handleWebSocket(', '\nfunc checkPeerID(id string) error {\n\tif !utf8.ValidString(id) {\n\t\treturn fmt.Errorf("peer_id is not valid UTF-8")\n\t}\n\tif id == protocol.ServerPeerID {\n\t\treturn fmt.Errorf("peer_id is reserved")\n\t}\n\treturn nil\n}\n\nfunc handleWebSocket(')]),
+]
+MUTANTS += [
+ dict(id='R9-benign-join-code-validator-helper', props=['C08'], expect='SILENT',
+      edits=[(TA, '\tif strings.IndexByte(joinCode, 0) >= 0 || len(joinCode) > sha256.BlockSize {\n\t\treturn nil, fmt.Errorf("invalid join code")\n\t}\n', '\tif err := checkJoinCode(joinCode); err != nil {\n\t\treturn nil, err\n\t}\n'),
+             (TA, '\nfunc computeAuthMac(', '\nfunc checkJoinCode(code string) error {\n\tif strings.IndexByte(code, 0) >= 0 {\n\t\treturn fmt.Errorf("invalid join code")\n\t}\n\tif len(code) > sha256.BlockSize {\n\t\treturn fmt.Errorf("invalid join code")\n\t}\n\treturn nil\n}\n\nfunc computeAuthMac(')]),
+]
